@@ -161,3 +161,124 @@ mod tests {
         assert!(add_kl(&z, 16).is_none());
     }
 }
+
+// ------------------------------------------------------------------ multiples of L with a saturated window
+//
+// Reductions modulo L (Barrett, or the ref10 fold) subtract a multiple q*L from the input limb by limb. Their borrow and
+// carry chains are only stressed when q*L itself has a limb that is all ones (or all zeros) while a borrow arrives from
+// below - about 2^-56 per random input for 56-bit limbs. This family constructs such inputs for ANY limb layout:
+// pick a bit window [p, p+w), pick A with that window saturated, solve q*L = A (mod 2^(p+w)) using the inverse of the odd
+// number L modulo a power of two, and return x = q*L + r. By construction x mod L = r mod L.
+
+/// little-endian byte product, truncated to `n` bytes
+fn mul_trunc(a: &[u8], b: &[u8], n: usize) -> Vec<u8> {
+    let mut acc = vec![0u32; n + 1];
+    for (i, x) in a.iter().enumerate() {
+        if i >= n || *x == 0 {
+            continue;
+        }
+        let mut carry = 0u32;
+        for (j, y) in b.iter().enumerate() {
+            if i + j >= n {
+                break;
+            }
+            let t = acc[i + j] + (*x as u32) * (*y as u32) + carry;
+            acc[i + j] = t & 0xff;
+            carry = t >> 8;
+        }
+        let mut k = i + b.len();
+        while carry != 0 && k < n {
+            let t = acc[k] + carry;
+            acc[k] = t & 0xff;
+            carry = t >> 8;
+            k += 1;
+        }
+    }
+    acc[..n].iter().map(|v| *v as u8).collect()
+}
+
+/// L^-1 modulo 2^(8n) by Newton iteration (L is odd): inv <- inv * (2 - L*inv)
+fn l_inverse(n: usize) -> Vec<u8> {
+    let mut inv = vec![0u8; n];
+    inv[0] = 1;
+    for _ in 0..10 {
+        let li = mul_trunc(&L, &inv, n);
+        // two = 2 - li (mod 2^(8n))
+        let mut two = vec![0u8; n];
+        let mut borrow = 0i16;
+        for i in 0..n {
+            let base = if i == 0 { 2i16 } else { 0 };
+            let mut t = base - li[i] as i16 - borrow;
+            if t < 0 {
+                t += 256;
+                borrow = 1;
+            } else {
+                borrow = 0;
+            }
+            two[i] = t as u8;
+        }
+        inv = mul_trunc(&inv, &two, n);
+    }
+    inv
+}
+
+/// x = q*L + r (64 bytes, little-endian) where q*L has bits [p, p+w) all ones (`ones`) or all zeros, the bits below taken
+/// from `filler`; `r` is any 32-byte value (x mod L = r mod L). p + w <= 256.
+pub fn wide_with_saturated_window(p: usize, w: usize, ones: bool, filler: &[u8; 32], r: &[u8; 32]) -> [u8; 64] {
+    let p = p.min(255);
+    let w = w.max(1).min(256 - p);
+    let m = p + w; // q*L is prescribed modulo 2^m
+    let nbytes = (m + 7) / 8;
+    let mut a = filler[..nbytes].to_vec();
+    for bit in p..m {
+        if ones {
+            a[bit / 8] |= 1 << (bit % 8);
+        } else {
+            a[bit / 8] &= !(1 << (bit % 8));
+        }
+    }
+    // q = a * L^-1 mod 2^m
+    let inv = l_inverse(nbytes);
+    let mut q = mul_trunc(&a, &inv, nbytes);
+    if m % 8 != 0 {
+        q[nbytes - 1] &= (1u8 << (m % 8)) - 1;
+    }
+    // x = q*L + r
+    let mut x = mul_trunc(&q, &L, 64);
+    let mut carry = 0u16;
+    for i in 0..64 {
+        let t = x[i] as u16 + if i < 32 { r[i] as u16 } else { 0 } + carry;
+        x[i] = t as u8;
+        carry = t >> 8;
+    }
+    let mut out = [0u8; 64];
+    out.copy_from_slice(&x);
+    out
+}
+
+#[cfg(test)]
+mod window_tests {
+    use super::*;
+    #[test]
+    fn inverse_and_window() {
+        let inv = l_inverse(32);
+        let one = mul_trunc(&L, &inv, 32);
+        assert_eq!(one[0], 1);
+        assert!(one[1..].iter().all(|b| *b == 0));
+        let filler = [0x5au8; 32];
+        let mut r = [0u8; 32];
+        r[0] = 7;
+        r[20] = 3;
+        for (p, w, ones) in [(0usize, 56usize, true), (56, 56, true), (112, 56, false), (21, 21, true), (200, 56, true), (250, 6, true), (100, 64, false)] {
+            let x = wide_with_saturated_window(p, w, ones, &filler, &r);
+            // x mod L == r (r < L here)
+            assert_eq!(mod_l(&x), r, "window {} {}", p, w);
+            // (x - r) has the window saturated
+            let mut y = x;
+            sub_in_place(&mut y, &r);
+            for bit in p..p + w {
+                assert_eq!((y[bit / 8] >> (bit % 8)) & 1, ones as u8, "bit {} of window ({}, {})", bit, p, w);
+            }
+        }
+    }
+}
